@@ -21,6 +21,7 @@ A descriptor is a nested tuple of strings/ints only: hashable, orderable, JSON-a
     ("dcself", e)     Node{v: e, nxt: Optional["Node"] = None, kids: List["Node"] = []}
     ("dcselft", e)    Node{v: e, nxt: Optional[typing.Self] = None, kids: List[typing.Self] = []}
     ("dcfwd", e)      Holder{x: "Later", y: e}; class Later defined after Holder (postponed evaluation)
+    ("dcselfg", e)    GN{v: T, nxt: Optional["GN[int]"] = None} specialised as GN[e]: a generic class referring to a specialisation of itself
     ("dcmut", e)      plain PA{v: e, b: Optional["PB"] = None} and plain PB{a: Optional[PA] = None, w: int = 0} referring to each other
 """
 from __future__ import annotations
@@ -355,7 +356,7 @@ def _hint(d, ctx):
         return _mk_td(d, ctx)
     if k == "dc":
         return _mk_dc(d, ctx)
-    if k in ("dcgen", "dcgeninh", "dcinh", "dcself", "dcselft", "dcfwd", "dcmut"):
+    if k in ("dcgen", "dcgeninh", "dcinh", "dcself", "dcselft", "dcfwd", "dcmut", "dcselfg"):
         return _mk_special(d, ctx)
     raise ValueError(f"unknown descriptor {d!r}")
 
@@ -606,6 +607,14 @@ def _mk_special(d, ctx):
         H, Lc = ctx.ns[f"H{n}"], ctx.ns[f"L{n}"]
         ctx.info[d] = dict(cls=H, later=Lc, kind=k)
         return H
+    if k == "dcselfg":
+        tv = f"TG{n}"
+        src = (f"{tv} = TypeVar('{tv}')\n@dataclass\nclass GN{n}({MB}, Generic[{tv}]):\n    v: {tv}\n"
+               f"    nxt: Optional['GN{n}[int]'] = None{cfg}\n")
+        ctx.run(src)
+        G = ctx.ns[f"GN{n}"]
+        ctx.info[d] = dict(cls=G, kind=k)
+        return G[h]
     if k == "dcmut":
         src = (f"@dataclass\nclass PA{n}:\n    v: {hn}\n    b: Optional['PB{n}'] = None\n"
                f"@dataclass\nclass PB{n}:\n    a: Optional[PA{n}] = None\n    w: int = 0\n")
@@ -778,6 +787,10 @@ def values(d, ctx: Ctx, top=True):
         H, Lc = ctx.info[d]["cls"], ctx.info[d]["later"]
         vs = inner(d[1])
         return [H(Lc(vs[0]), vs[-1]), H(Lc(vs[-1], 5), vs[0])]
+    if k == "dcselfg":
+        G = ctx.info[d]["cls"]
+        vs = inner(d[1])
+        return [G(vs[0]), G(vs[-1], G(5, G(6)))]
     if k == "dcmut":
         A, B = ctx.info[d]["cls"], ctx.info[d]["other"]
         vs = inner(d[1])
@@ -887,7 +900,7 @@ def show(d):
 # ---------------------------------------------------------------------------------------
 WIRE_LISTY = set(SEQ1) | set(SET1) | {"tuple", "tupleu", "chain", "pep585list", "barelist", "pep585tuple", "ntf", "nt"}
 WIRE_DICTY = {"dict", "mapping", "mutmapping", "ordered", "defaultdict", "mproxy", "counter", "td", "dc", "dcgen",
-              "dcgeninh", "dcinh", "dcself", "dcselft", "dcfwd", "dcmut", "pep585dict", "baredict"}
+              "dcgeninh", "dcinh", "dcself", "dcselft", "dcfwd", "dcmut", "dcselfg", "pep585dict", "baredict"}
 
 
 def wire_kinds(d):
@@ -981,7 +994,7 @@ def wrappers(e, level="full"):
     out += [("dc", "mixin", ((e, "dflt"),)), ("dc", "mixin", ((STR, "req"), (e, "none"))),
             ("dc", "plain", ((INT, "req"), (e, "dflt"), (e, "none"))),
             ("dc", "mixin", ((("final", e), "req"),))]
-    out += [(sp, e) for sp in ("dcgen", "dcgeninh", "dcinh", "dcself", "dcselft", "dcfwd", "dcmut")]
+    out += [(sp, e) for sp in ("dcgen", "dcgeninh", "dcinh", "dcself", "dcselft", "dcfwd", "dcmut", "dcselfg")]
     return out
 
 
